@@ -326,7 +326,7 @@ def check_filter_structure(c, mf):
         if a.name != name or a.tests or a.block is not None:
             return ("action-name", "%s for %s" % (a.name, name))
     got = sorted(strings_of(c, []))
-    want = sorted(s.encode("utf-8", "surrogatepass").replace(b"\r\n", b"\n") for s in d.strings)
+    want = sorted(s.encode("utf-8", "surrogatepass") for s in d.strings)
     if got != want:
         return ("string-literals", "got %r want %r" % (got[:8], want[:8]))
     gotn = sorted(x.lower() for x in numbers_of(c, []))
